@@ -1,6 +1,7 @@
 package run
 
 import (
+	"encoding/binary"
 	"encoding/hex"
 	"fmt"
 	"github.com/jackc/pgx/v5/pgtype"
@@ -197,6 +198,19 @@ func int16s(l []any) []int16 {
 // one stream) are compared on it.
 func (c *Concretiser) Bytes(m M) []byte {
 	b := c.bytes0(m)
+	if n := I(m, "_pad"); n > 0 && len(b) >= 5 {
+		// surplus bytes behind the fields of the message, inside it: the handlers of these message types read
+		// their fields and nothing else - the surplus belongs to this message and to no other
+		switch S(m, "t") {
+		case "S", "H", "X", "c", "f", "E", "D", "C", "Q", "P", "B":
+			if len(b)-1+n <= c.X.EffLimit() {
+				pad := make([]byte, n)
+				c.Rng.Read(pad)
+				b = append(append([]byte{}, b...), pad...)
+				binary.BigEndian.PutUint32(b[1:5], uint32(len(b)-1))
+			}
+		}
+	}
 	for _, x := range b {
 		c.InDig = (c.InDig ^ uint64(x)) * 1099511628211
 	}
